@@ -106,6 +106,18 @@ def cases(tier):
         "ResourceTasksDistance": lambda r: con("ResourceTasksDistance", "c", resource=R(r), distance=1, mode="min"),
         "ResourceNonDelay": lambda r: con("ResourceNonDelay", "c", resource=R(r)),
     }
+    # the same with nothing to forbid: an empty interval list does not make an unassigned resource acceptable
+    rc_empty = {
+        "WorkLoad": lambda r: con("WorkLoad", "c", resource=R(r), dict_time_intervals_and_bound={"$tupkeys": []}),
+        "ResourceUnavailable": lambda r: con("ResourceUnavailable", "c", resource=R(r), list_of_time_intervals=[]),
+        "ResourcePeriodicallyUnavailable": lambda r: con("ResourcePeriodicallyUnavailable", "c", resource=R(r), list_of_time_intervals=[], period=3),
+        "ResourceInterrupted": lambda r: con("ResourceInterrupted", "c", resource=R(r), list_of_time_intervals=[]),
+        "ResourcePeriodicallyInterrupted": lambda r: con("ResourcePeriodicallyInterrupted", "c", resource=R(r), list_of_time_intervals=[], period=3),
+    }
+    for name, mk in rc_empty.items():
+        # (a workload without intervals, and an empty unavailability on an assigned resource, say nothing: unspecified)
+        add(name + "/unassigned-empty-list", mk("u"), U if name == "WorkLoad" else Rj)
+        add(name + "/assigned-empty-list", mk("w"), A if "Interrupted" in name else U)
     ctx_c = CTX + [cumul("cu", 2), cumul("cn", 2), req("a", "cu"), req("o", "cu"), select("s", ["u", "v"]), fixed("b", 2), req("b", "s")]
     for name, mk in rc.items():
         add(name + "/unassigned", mk("u"), Rj)
@@ -206,7 +218,18 @@ def cases(tier):
               new("Worker", "x", name="x"), new("CumulativeWorker", "x", name="x", size=2), new("NonConcurrentBuffer", "b", name="b", initial_level=0),
               new("ConcurrentBuffer", "b", name="b", initial_level=0)):
         add("no-active-problem:" + d["cls"], d, Rj, ctx=[], no_problem=True)
-    return out
+    # ---- a rejected attempt leaves nothing behind: the well-formed variant of the same element (same name, same
+    # context) must still be accepted right after the failed creation
+    paired = []
+    for c in out:
+        if c["exp"] != Rj or c["no_problem"] or len(c["test"]) != 1:
+            continue
+        fix = next((a for a in out if a["exp"] == A and a["label"].split("/")[0] == c["label"].split("/")[0] and a["ctx"] is c["ctx"] and len(a["test"]) == 1
+                    and a["test"][0].get("id") == c["test"][0].get("id")), None)
+        if fix is not None:
+            paired.append({"label": c["label"].split("/")[0] + "/after-rejected-attempt", "ctx": c["ctx"], "pre_rejected": c["test"], "test": fix["test"],
+                           "exp": A, "no_problem": False})
+    return out + paired
 
 
 def job(c):
@@ -215,7 +238,11 @@ def job(c):
 
     res = {"label": c["label"], "exp": c["exp"], "ok": True, "idx": c.get("idx")}
     try:
-        program = prog(4, c["ctx"] + c["test"])
+        pre = []
+        if c.get("pre_rejected"):
+            rej = [l for l in dsl.gen_source(prog(4, c["pre_rejected"]), header=False).splitlines() if not l.startswith("pb = ")]
+            pre = [{"k": "raw", "src": "try:\n" + "\n".join("    " + l for l in rej) + "\nexcept Exception:\n    pass"}]
+        program = prog(4, c["ctx"] + pre + c["test"])
         if c["no_problem"]:
             # build the context (none) without a problem: clear the module-level active problem
             boot.boot()
@@ -368,6 +395,8 @@ def main(tier):
                 if r.get("context_failed"):
                     case = dict(case, test=[], exp="accept", label=r["label"])
                 sig = {"dir": "validation", "element": r["label"], "expected": r["exp"], "got": r["outcome"]}
+                if case.get("pre_rejected"):
+                    sig["why"] = "name-still-registered" if "already exists" in (r.get("msg") or "") else (r.get("exc") or "other")
                 chk.violation(sig, {"case": case, "observed": r, "expect": "validation"})
         if len(chk.samples) < 6 and r.get("src"):
             chk.sample({"element": r["label"], "under_test": r["src"], "expected": r["exp"], "observed": r["outcome"]})
